@@ -113,18 +113,33 @@ func (e *Engine) tolerantRecover(st *State, msg string) bool {
 			return true
 		}
 	}
-	// abort the innermost package initialiser
-	for f := st.fr; f != nil; f = f.caller {
-		if f.fn.Name() == "init" && f.fn.Synthetic != "" {
-			e.res.Assumptions[fmt.Sprintf("initialiser of %s aborted (%s); its remaining globals are opaque", f.fn.Pkg.Pkg.Path(), truncate(msg, 80))]++
-			st.fr = f.caller
-			if f.onRet != nil {
-				f.onRet(st, nil)
-			}
-			return true
-		}
+	// a control instruction cannot be executed: give up on the current function call. Inside a
+	// helper the call yields an opaque result; inside a package initialiser the rest of that
+	// initialiser is skipped.
+	f := st.fr
+	if f.fn.Name() == "init" && f.fn.Synthetic != "" {
+		e.res.Assumptions[fmt.Sprintf("initialiser of %s aborted (%s); its remaining globals are opaque", f.fn.Pkg.Pkg.Path(), truncate(msg, 80))]++
 	}
-	return false
+	st.fr = f.caller
+	if f.onRet != nil {
+		f.onRet(st, opaqueResults(f.fn))
+	}
+	return true
+}
+
+func opaqueResults(fn *ssa.Function) Value {
+	res := fn.Signature.Results()
+	switch res.Len() {
+	case 0:
+		return nil
+	case 1:
+		return OpaqueVal{"result of aborted " + fn.Name()}
+	}
+	t := make(TupleVal, res.Len())
+	for i := range t {
+		t[i] = OpaqueVal{"result of aborted " + fn.Name()}
+	}
+	return t
 }
 
 func truncate(s string, n int) string {
@@ -137,11 +152,11 @@ func truncate(s string, n int) string {
 // ---------- model extraction ----------
 
 func (e *Engine) model(st *State) map[string]any {
-	r := e.sol.QueryFull(nil)
-	defer e.sol.EndQuery()
+	r := e.satRefined(st, nil)
 	if r != "sat" {
 		return nil
 	}
+	defer e.sol.EndQuery()
 	return e.modelFromCurrent(st)
 }
 
